@@ -72,3 +72,13 @@ Lemma c08_frame a ps : let a' := astep a (OSgr ps) in
   a_mode a' = a_mode a /\ a_margins a' = a_margins a /\ a_tabs a' = a_tabs a /\ a_dirty a' = a_dirty a /\ a_sp a' = a_sp a.
 Proof. repeat split; reflexivity. Qed.
 End S.
+
+(* one sequence with several ordinary codes = the same codes sent one sequence at a time (a list may be cut anywhere
+   except inside an extended-colour form 38/48;…) *)
+Lemma sgr_app_ordinary d l1 : forall a l2, Forall (fun p => p <> 38 /\ p <> 48) l1 ->
+  sgr_spec d a (l1 ++ l2) = sgr_spec d (sgr_spec d a l1) l2.
+Proof.
+  induction l1 as [|p l1 IH]; intros a l2 F; [reflexivity|].
+  inversion F as [|? ? [H1 H2] F']; subst. cbn [app sgr_spec].
+  destruct (N.eqb_spec p 38); [contradiction|]. destruct (N.eqb_spec p 48); [contradiction|]. cbn [orb]. apply IH. exact F'.
+Qed.
